@@ -132,11 +132,15 @@ pub fn for_property(prop: &str) -> Vec<Family> {
         ],
         "C10" => vec![f("isolate", "k objects blocked on gates that stay closed, pool maximum above the number of stalled threads, other objects must finish before the gates open", gen_isolate, Q, T)],
         "C11" => vec![
-            f("pipe-in", "pipe_in with items arriving before/during/after polls (single items and bursts), concurrent sync/desync/futures on the target, the target dropped while the stream is open", gen_pipe_in, Q * 5 / 8, T * 5 / 8),
+            f("pipe-in", "pipe_in with items arriving before/during/after polls (single items and bursts), concurrent sync/desync/futures on the target (awaited, detached, polled once and abandoned), the target dropped while the stream is open", gen_pipe_in, Q / 2, T / 2),
+            f("pipe-chain-out", "pipe_in fed by the output stream of a pipe (and pipe into pipe), run to the end", gen_pipe_chain_out, Q / 8, T / 8),
             sw("pipe-in-drop-sweep", "the last owner of the target released at every scheduling point of the context polling the input, through bursts of up to 14 ready items", gen_pipe_in_drop_sweep, Q / 4, T / 4, 160),
             sw("pipe-in-wake-drop-sweep", "the last owner of the target released at every scheduling point of the thread that notifies the input (where the pipe briefly upgrades its weak reference), with every pool thread stalled", gen_pipe_in_wake_drop_sweep, Q / 8, T / 8, 64),
         ],
-        "C12" => vec![f("pipe-out", "pipe with depth 1..5, consumer reading by blocking and by single polls, producer pushing and closing", gen_pipe_out, Q, T)],
+        "C12" => vec![
+            f("pipe-out", "pipe with depth 1..5, consumer reading by blocking and by single polls (and changing the depth in mid-stream), producer pushing and closing", gen_pipe_out, Q * 3 / 4, T * 3 / 4),
+            f("pipe-chain-out", "two pipes chained and run to the end (pipe into pipe, pipe into pipe_in): the consumer of the first stage is another pipe, itself throttled now and then", gen_pipe_chain_out, Q / 4, T / 4),
+        ],
         "C14" => vec![
             f("mix", "all operation kinds; closures and captures carry scope canaries and drop probes", g_mix, Q / 8, T / 8),
             f("fsync", "future_sync futures dropped at any point; their closures and futures must be gone with them", g_fsync, Q / 8, T / 8),
